@@ -29,8 +29,18 @@ MCOpsFull  == LegalAdd \cup AddOdd \cup FinOps \cup ExpOps \cup DelOps \cup Lega
 MCOpsCore  == {o \in LegalAdd : o.n = 1 \/ o.c = 0} \cup {o \in FinOps : o.q = "right"}
               \cup {o \in ExpOps : o.n = 0} \cup DelOps \cup {o \in LegalRead : o.c = 0 /\ o.i # NP}
 
+\* access-time alphabet: ageing, touching, evicting, reading
+MCOpsLRU   == AgeOps \cup TouchOps \cup ExpOps \cup {o \in LegalRead : o.c = 0 /\ o.i # NP}
+
 MCInitAll  == {"empty", "partial", "fullgood", "fullbad", "complete"}
+IdRank == [k \in 1..NP |-> k - 1]
+MCRankId == {IdRank}
+MCRankAll == {r \in [1..NP -> Piece] : \A a, b \in 1..NP : a # b => r[a] # r[b]}
+MCNold0 == {0}
+MCNoldAll == 0..NP
 MCInitEmpty == {"empty"}
+MCInitLRU  == {"partial", "complete"}
+MCInitComplete == {"complete"}
 
 Symm == Permutations({t1, t2, t3, t4, t5})
 
